@@ -133,7 +133,8 @@ theorem G_stepBrace {s : FState} (sp : Bool) (c : Rune) (h : s.nesting ≤ 10) :
   split
   · split <;> gleaf
   · split
-    · have h1 : G 1 s ({ (if s.last != rNL then s.nextLine else s) with nesting := s.nesting - 1 }) := by
+    · have h1 : G 1 s ({ (if s.last != rNL || (s.continued && decide (s.newLines > 0)) then s.nextLine else s) with
+          nesting := s.nesting - 1 }) := by
         split
         · exact ⟨by simp [FState.nextLine], by simp; omega⟩
         · exact ⟨by simp, by simp; omega⟩
